@@ -87,6 +87,10 @@ fn main() {
                 println!("REPLAY property={id} stage={stage}: holds");
                 std::process::exit(0);
             }
+            Err(e) if e.starts_with("NOT-APPLICABLE:") => {
+                eprintln!("{e}");
+                std::process::exit(2);
+            }
             Err(e) => {
                 println!("VIOLATION property={id} replay={path}");
                 println!("  stage={stage} {e}");
@@ -108,6 +112,10 @@ fn main() {
             let case = v.get("case").cloned().unwrap_or(serde_json::Value::Null);
             n += 1;
             if let Err(e) = props::replay(&mut ctx, &stage, &case) {
+                if e.starts_with("NOT-APPLICABLE:") {
+                    ctx.measure("regression_replays_not_applicable_to_this_tree", 1);
+                    continue;
+                }
                 ctx.violation(&format!("regress-{}", f.file_stem().and_then(|s| s.to_str()).unwrap_or("x")), case, &e);
             }
         }
